@@ -197,6 +197,7 @@ def extract_rk(body, line0):
     info = {}
     # 1. coefficient initialisers -------------------------------------------------------------------------------
     env = {}
+    split = {}
     decls = [m for m in re.finditer(r"\bLDBLE\s+([^;]*?=[^;]*);", body) if re.search(r"\b(b\d\d|c\d|dc\d)\s*=", m.group(1))]
     if len(decls) != 2:
         raise Shape(f"gen_rk: expected 2 LDBLE initialiser statements with tableau coefficients, found {len(decls)}")
@@ -209,6 +210,14 @@ def extract_rk(body, line0):
             v = parse_expr(rhs, env)
             if not v.is_const():
                 raise Shape(f"gen_rk: initialiser of {nm} is not constant")
+            # `dcN = cN - <literal quotient>`: keep both operands (the double value is the rounded difference of the two
+            # rounded operands, not the rounded exact difference)
+            ms = re.fullmatch(r"\s*(c\d)\s*-\s*([^-+]+?)\s*", rhs)
+            if nm.startswith("dc"):
+                if ms and ms.group(1) in env:
+                    split[nm] = (env[ms.group(1)], parse_expr(ms.group(2), env).c)
+                else:
+                    split[nm] = (v.c, Fraction(0))
             if nm in env:
                 raise Shape(f"gen_rk: {nm} initialised twice")
             env[nm] = v.c
@@ -279,6 +288,7 @@ def extract_rk(body, line0):
             if e.c != 0:
                 raise Shape(f"gen_rk: constant term in stage expression {arg.strip()!r}")
             events.append(("err" if txt.startswith("l_error") else "set", {k: v for k, v in e.t.items() if v != 0}, ln))
+    info['split'] = split
     return env, events, info
 
 
@@ -452,6 +462,9 @@ def render(tab, ctl, rst, repo_rel):
     L.append("def b : List Rat := " + qlist(tab["b"]))
     L.append("/-- weights of the error expression `l_error = fabs(dc1*k1 + dc3*k3 + dc4*k4 + dc5*k5 + dc6*k6)` -/")
     L.append("def d : List Rat := " + qlist(tab["d"]))
+    L.append("/-- operands of the initialisers `dc_i = c_i - <literal>`: d = dMin - dSub (the doubles are rounded differences) -/")
+    L.append("def dMin : List Rat := " + qlist(tab["dmin"]))
+    L.append("def dSub : List Rat := " + qlist(tab["dsub"]))
     L.append("/-- early-exit weights of -runge_kutta 1, 2, 3 -/")
     L.append("def e1 : List Rat := " + qlist(tab["e1"]))
     L.append("def e2 : List Rat := " + qlist(tab["e2"]))
@@ -485,6 +498,16 @@ def extract(repo=None):
     env, events, info = extract_rk(body, line0)
     tab = shape_rk(env, events)
     tab["coef_line"] = info["coef_line"]
+    # operands of the error weights in stage order (a stage without a weight has (0, 0))
+    names = {0: "dc1", 1: "dc2", 2: "dc3", 3: "dc4", 4: "dc5", 5: "dc6"}
+    dmin, dsub = [], []
+    for i in range(6):
+        a, b2 = info["split"].get(names[i], (Fraction(0), Fraction(0)))
+        if a - b2 != tab["d"][i]:
+            raise Shape(f"gen_rk: error weight of stage {i + 1} is not the initialiser {names[i]}")
+        dmin.append(a)
+        dsub.append(b2)
+    tab["dmin"], tab["dsub"] = dmin, dsub
     ctl = extract_control(body)
     extract_clamp(src)
     rst = extract_restart(src)
